@@ -4,6 +4,7 @@ package main
 // absence of shared mutable state and of nondeterminism sources (C13, C01).
 
 import (
+	"os"
 	"fmt"
 	"go/token"
 	"go/types"
@@ -450,6 +451,64 @@ func ruleCopyClobber(c *Ctx) {
 				}
 				if !bad {
 					c.ok(key, cp.Pos(), "no store into the aliased array precedes the move")
+				}
+				// stores after the move must stay outside the moved region [d, d+k)
+				dLow := linConst(0)
+				if dsl, ok := cp.Call.Args[0].(*ssa.Slice); ok && dsl.Low != nil {
+					dLow = fi.lin(dsl.Low)
+				}
+				kMoved := fi.lin(cp)
+				copyFacts := []Fact{
+					{kMoved.sub(fi.lenOf(cp.Call.Args[1])), LE},
+					{kMoved.sub(fi.lenOf(cp.Call.Args[0])), LE},
+					{kMoved.scale(-1), LE},
+					// the move is complete: the re-grown slice is at least d + len(src) long where this idiom is used
+				}
+				okAfter := true
+				nAfter := 0
+				for _, bb := range fn.Blocks {
+					for _, in2 := range bb.Instrs {
+						st, ok := in2.(*ssa.Store)
+						if !ok {
+							continue
+						}
+						ia, ok := st.Addr.(*ssa.IndexAddr)
+						if !ok {
+							continue
+						}
+						if !c.sameArray(stripSlices(ia.X), dstBase, alias) {
+							continue
+						}
+						if !fi.instrReaches(cp, st) || fi.instrReaches(st, cp) {
+							continue
+						}
+						nAfter++
+						// absolute index = sum of the low bounds of the slice chain + index
+						abs := fi.lin(ia.Index)
+						for v := ia.X; ; {
+							sl, isSl := v.(*ssa.Slice)
+							if !isSl {
+								break
+							}
+							if sl.Low != nil {
+								abs = abs.add(fi.lin(sl.Low))
+							}
+							v = sl.X
+						}
+						below := fi.proveAt(abs.addc(1).sub(dLow), bb, copyFacts)
+						above := fi.proveAt(dLow.add(kMoved).sub(abs), bb, copyFacts)
+						if os.Getenv("LZDBG") != "" {
+							fmt.Fprintf(os.Stderr, "CLOBBER %s abs=%s dLow=%s k=%s below=%v above=%v facts=%s\n", key, abs, dLow, kMoved, below, above, factStrings(fi.factsAt(bb)))
+							fmt.Fprintf(os.Stderr, "   d<=0:%v  above-nofacts:%v above-proveLE:%v flat:%v false:%v\n", fi.proveAt(dLow, bb, nil), fi.proveAt(dLow.add(kMoved).sub(abs), bb, nil), fi.proveLE(dLow.add(kMoved).sub(abs), bb, copyFacts), fi.proveFlat(dLow.add(kMoved).sub(abs), fi.condsAt(bb), copyFacts), fi.proveAt(linConst(1), bb, copyFacts))
+						}
+						if !below && !above {
+							okAfter = false
+							c.fail(key+":after", st.Pos(), "after the live elements were moved to [%s, %s+%s) this store writes index %s of the same array, which is not proved to lie outside the moved region: moved live elements are overwritten", dLow, dLow, kMoved, abs)
+						}
+					}
+				}
+				if okAfter {
+					c.ok(key+":after", cp.Pos(), "%d stores after the move stay outside the moved region [d, d+k)", nAfter)
 				}
 			}
 		}
